@@ -303,9 +303,65 @@ func Generate(seed uint64, prop, tier string) *Plan {
 		}
 		p.Users = append(p.Users, up)
 	}
+	// control API and client-side connections
+	if prop == "C19" || r.Chance(1, 5) {
+		ctlHeavy := prop == "C19"
+		nd := r.Range(0, 2)
+		for i := 0; i < nd; i++ {
+			cp := ConnPlan{Dial: true}
+			for j := r.Range(0, 3); j > 0; j-- {
+				n := pickSize(r, rb)
+				cp.Peer = append(cp.Peer, PeerOp{K: "send", N: n, Segs: genSegs(r, n, rb)})
+				if r.Chance(1, 2) {
+					cp.Peer = append(cp.Peer, PeerOp{K: "recv", N: r.Pick(1, 100, 5000)})
+				}
+			}
+			if r.Chance(1, 3) {
+				cp.Peer = append(cp.Peer, PeerOp{K: "close"})
+			}
+			for j := r.Range(0, 3); j > 0; j-- {
+				cp.Traffic = append(cp.Traffic, TStep{R: genROps(r, rb), W: genWOps(r, wb, false)})
+			}
+			p.Conns = append(p.Conns, cp)
+		}
+		nu2 := r.Range(1, 3)
+		if !ctlHeavy {
+			nu2 = 1
+		}
+		dialIdx := nconn
+		for u := 0; u < nu2; u++ {
+			var up UserPlan
+			for j := r.Range(2, 8); j > 0; j-- {
+				op := UserOp{}
+				switch x := r.Intn(13); {
+				case x == 0:
+					op.K = "validate"
+				case x == 1:
+					op.K = "countx"
+				case x == 2:
+					op.K = "dup"
+				case x == 3:
+					op.K = "duplistener"
+				case x == 4:
+					op.K = "duplistener-bad"
+				case x == 5:
+					op.K = "register-none"
+				case x == 6 && ctlHeavy:
+					op.K, op.N = "stopctx", r.Intn(3)
+				case (x == 7 || x == 8) && dialIdx < len(p.Conns):
+					op.K, op.Conn = []string{"register", "enroll"}[r.Intn(2)], dialIdx
+					dialIdx++
+				default:
+					op.K, op.N = "pause", r.Range(1, 40)
+				}
+				up.Ops = append(up.Ops, op)
+			}
+			p.Users = append(p.Users, up)
+		}
+	}
 	// shutdown
 	p.Stop.Source = "engine.Stop"
-	if prop == "C06" || r.Chance(1, 4) {
+	if prop == "C06" || prop == "C19" && r.Chance(1, 2) || r.Chance(1, 4) {
 		p.Stop.Source = []string{"engine.Stop", "gnet.Stop", "engine.Stop"}[r.Intn(3)]
 		p.Stop.AtStep = r.Pick(1, 5, 20, 60, 150, 400, 1000)
 		p.Stop.Double = r.Chance(1, 5)
